@@ -55,8 +55,28 @@ func cmdVerify(args []string) int {
 	}
 	opts := &Options{Unroll: *unroll, Budget: *budget, Smoke: *smoke, Verbose: *verbose, Jobs: *jobs, DumpDir: *dump}
 	var keys []string
+	// implementations of interface methods are verified against the interface contract
+	for k, fi := range prog.Funcs {
+		if ct := contractFor(prog, fi); ct != nil && ct.Iface {
+			prog.implContracts[k] = ct
+		}
+	}
+	for k := range prog.implContracts {
+		if *funcs != "" {
+			ok := false
+			for _, f := range strings.Split(*funcs, ",") {
+				if k == f || strings.HasPrefix(k, f) {
+					ok = true
+				}
+			}
+			if !ok {
+				continue
+			}
+		}
+		keys = append(keys, k)
+	}
 	for k := range prog.Contracts {
-		if prog.Contracts[k].Iface {
+		if prog.Contracts[k].Iface || prog.implContracts[k] != nil {
 			continue
 		}
 		if *funcs != "" {
@@ -78,6 +98,12 @@ func cmdVerify(args []string) int {
 	var results []*FuncResult
 	for _, k := range keys {
 		fi := prog.Funcs[k]
+		if ic := prog.implContracts[k]; ic != nil {
+			fr := verifyFunc(prog, fi, ic, opts)
+			results = append(results, fr)
+			all = append(all, fr.Obls...)
+			continue
+		}
 		if prog.Contracts[k].Pure {
 			fr := verifyPureLemma(prog, prog.Contracts[k], opts)
 			results = append(results, fr)
